@@ -145,6 +145,7 @@ type rsWorld struct {
 	rd     *reorgdetector.ReorgDetector
 	subs   []*rsSub
 	cancel context.CancelFunc
+	ctx    context.Context
 	hashOf map[common.Hash]string // hash -> "num.ver"
 }
 
@@ -251,6 +252,7 @@ func (w *rsWorld) start() {
 	must(err)
 	ctx, cancel := context.WithCancel(context.Background())
 	w.cancel = cancel
+	w.ctx = ctx
 	must(w.rd.Start(ctx))
 	for _, s := range w.subs {
 		s.proc, err = bridgesync.VerifNewProcessor(s.path, "verif-"+s.id, lg())
@@ -488,7 +490,8 @@ func (w *rsWorld) exec(line string) string {
 		}
 		done := make(chan struct{})
 		rd := w.rd
-		go func() { rd.VerifDetectOnce(context.Background()); close(done) }()
+		nodeCtx := w.ctx // the periodic check runs under the node's context, which the stop cancels
+		go func() { rd.VerifDetectOnce(nodeCtx); close(done) }()
 		entered := func() int {
 			n := 0
 			for _, s := range w.subs {
@@ -512,6 +515,12 @@ func (w *rsWorld) exec(line string) string {
 				quiet++
 			}
 			time.Sleep(500 * time.Microsecond)
+		}
+		// stop: cancel the node's context, give the detection pass a moment to react to it, then close everything
+		w.cancel()
+		select {
+		case <-done:
+		case <-time.After(50 * time.Millisecond):
 		}
 		w.stop()
 		w.start()
